@@ -80,6 +80,7 @@ type caseJSON struct {
 	Readable   string            `json:"readable,omitempty"`
 	FindingKey string            `json:"finding_key,omitempty"`
 	// kind longline: text = pre + fill repeated n times + post (printed to Coq as a repeat term)
+	Steps []Step `json:"steps,omitempty"`
 	Pre  string `json:"pre_hex,omitempty"`
 	Post string `json:"post_hex,omitempty"`
 	Fill int    `json:"fill,omitempty"`
@@ -324,10 +325,56 @@ var syntaxErr = regexp.MustCompile(`invalid format for rule with operator|invali
 type observation struct {
 	Class string // ok | syntax | ext | panic
 	Dumps []corazawaf.VerifC16Dump
+	Data  []string // per rule: the data file its @pmFromFile / @ipMatchFromFile operator loaded ("" = none)
 	Err   string
 }
 
-func observe(files map[string]string, text string) (o observation) {
+// one call on the Parser: FromFile(File) when File != "", else FromString(Text)
+type Step struct {
+	File string `json:"file,omitempty"`
+	Text string `json:"text_hex,omitempty"`
+}
+
+func classify(err error) string {
+	m := err.Error()
+	if strings.Contains(m, "error parsing regexp") || strings.Contains(m, "failed to init action") {
+		return "ext"
+	}
+	if syntaxErr.MatchString(m) || strings.Contains(m, `directive "secruleupdatetargetbyid"`) {
+		return "syntax"
+	}
+	return "ext"
+}
+
+var dataFileOps = map[string]bool{"pmFromFile": true, "pmf": true, "ipMatchFromFile": true, "ipMatchF": true}
+
+// probeData: which data file did the operator of rule idx load?  Every *.data file of the in-memory
+// file system holds one token (a word, or an IP address) that occurs in no other data file; the
+// operator is evaluated on every token.
+func probeData(waf *corazawaf.WAF, idx int, d corazawaf.VerifC16Dump, files map[string]string) string {
+	if !d.HasOperator || !dataFileOps[strings.TrimLeft(d.OpFunction, "!@")] {
+		return ""
+	}
+	var names []string
+	for n := range files {
+		if strings.HasSuffix(n, ".data") {
+			names = append(names, n)
+		}
+	}
+	sort.Strings(names)
+	hit := ""
+	for _, n := range names {
+		if corazawaf.VerifC16ProbeOperator(waf, idx, strings.TrimSpace(files[n])) {
+			if hit != "" {
+				return "?ambiguous"
+			}
+			hit = n
+		}
+	}
+	return hit
+}
+
+func observeSteps(files map[string]string, steps []Step) (o observation) {
 	defer func() {
 		if r := recover(); r != nil {
 			o = observation{Class: "panic", Err: fmt.Sprint(r)}
@@ -340,15 +387,26 @@ func observe(files map[string]string, text string) (o observation) {
 		mfs[n] = &fstest.MapFile{Data: []byte(c)}
 	}
 	p.SetRoot(mfs)
-	err := p.FromString(text)
-	if err != nil {
-		cls := "ext"
-		if syntaxErr.MatchString(err.Error()) {
-			cls = "syntax"
+	for _, st := range steps {
+		var err error
+		if st.File != "" {
+			err = p.FromFile(st.File)
+		} else {
+			err = p.FromString(unhx(st.Text))
 		}
-		return observation{Class: cls, Err: err.Error()}
+		if err != nil {
+			return observation{Class: classify(err), Err: err.Error()}
+		}
 	}
-	return observation{Class: "ok", Dumps: corazawaf.VerifC16DumpRules(waf)}
+	o = observation{Class: "ok", Dumps: corazawaf.VerifC16DumpRules(waf)}
+	for i, d := range o.Dumps {
+		o.Data = append(o.Data, probeData(waf, i, d, files))
+	}
+	return o
+}
+
+func observe(files map[string]string, text string) observation {
+	return observeSteps(files, []Step{{Text: hx(text)}})
 }
 
 func optHx(present bool, s string) string { return vh.OptionOf(present, vh.HxS(s)) }
@@ -361,7 +419,7 @@ func vdumpTerm(v corazawaf.VerifC16Variable) string {
 	return fmt.Sprintf("(mk_vd %s %s %s %s %s)", vh.HxS(v.Name), vh.Bool(v.Count), vh.HxS(v.KeyStr), optHx(v.HasRx, v.Rx), vh.List(ex))
 }
 
-func dumpTerm(d corazawaf.VerifC16Dump) string {
+func dumpTerm(d corazawaf.VerifC16Dump, data string) string {
 	var vs, as []string
 	for _, v := range d.Variables {
 		vs = append(vs, vdumpTerm(v))
@@ -373,16 +431,20 @@ func dumpTerm(d corazawaf.VerifC16Dump) string {
 	if d.HasOperator {
 		op = fmt.Sprintf("(Some (%s, %s, %s))", vh.HxS(d.OpFunction), vh.Bool(d.OpNegation), vh.HxS(d.OpData))
 	}
-	return fmt.Sprintf("(mk_dump %s %s %s %s %s %s %s %s %s %s)", vh.List(vs), op, vh.List(as), vh.N(int64(d.ID)), vh.N(int64(d.Phase)),
-		optHx(d.HasMsg, d.Msg), optHx(d.HasLogData, d.LogData), vh.HxList(d.Tags), vh.HxS(d.Rev), vh.HxS(d.Version))
+	return fmt.Sprintf("(mk_dump %s %s %s %s %s %s %s %s %s %s %s)", vh.List(vs), op, vh.List(as), vh.N(int64(d.ID)), vh.N(int64(d.Phase)),
+		optHx(d.HasMsg, d.Msg), optHx(d.HasLogData, d.LogData), vh.HxList(d.Tags), vh.HxS(d.Rev), vh.HxS(d.Version), optHx(data != "", data))
 }
 
 func obsTerm(o observation) string {
 	switch o.Class {
 	case "ok":
 		var ds []string
-		for _, d := range o.Dumps {
-			ds = append(ds, dumpTerm(d))
+		for i, d := range o.Dumps {
+			data := ""
+			if i < len(o.Data) {
+				data = o.Data[i]
+			}
+			ds = append(ds, dumpTerm(d, data))
 		}
 		return "(ObsOk " + vh.List(ds) + ")"
 	case "syntax":
@@ -394,6 +456,26 @@ func obsTerm(o observation) string {
 func dumpsKey(ds []corazawaf.VerifC16Dump) string {
 	b, _ := json.Marshal(ds)
 	return string(b)
+}
+
+// obsKey: everything that is compared between equivalent configurations (rules sorted by id)
+func obsKey(o observation) string {
+	type rd struct {
+		D    corazawaf.VerifC16Dump
+		Data string
+	}
+	var l []rd
+	for i, d := range o.Dumps {
+		data := ""
+		if i < len(o.Data) {
+			data = o.Data[i]
+		}
+		d.OpData = "" // the flat spelling names the data file by its full path
+		l = append(l, rd{d, data})
+	}
+	sort.SliceStable(l, func(i, j int) bool { return l[i].D.ID < l[j].D.ID })
+	b, _ := json.Marshal(l)
+	return o.Class + string(b)
 }
 
 func boolList(m []bool) string {
@@ -857,6 +939,44 @@ func (r *runner) addDesc(d Desc, mask []bool, v RVar, finding string) (string, o
 	return line, o
 }
 
+func stepsTerm(steps []Step) string {
+	var items []string
+	for _, st := range steps {
+		if st.File != "" {
+			items = append(items, "(StepFile "+vh.HxS(st.File)+")")
+		} else {
+			items = append(items, "(StepString "+vh.Hx([]byte(unhx(st.Text)))+")")
+		}
+	}
+	return vh.List(items)
+}
+
+// addSession: several FromFile / FromString calls on one Parser
+func (r *runner) addSession(files map[string]string, steps []Step, shape string) observation {
+	o := observeSteps(files, steps)
+	fh := map[string]string{}
+	for n, c := range files {
+		fh[n] = hx(c)
+	}
+	var rd []string
+	for _, st := range steps {
+		if st.File != "" {
+			rd = append(rd, "FromFile "+st.File)
+		} else {
+			rd = append(rd, "FromString "+readable(unhx(st.Text)))
+		}
+	}
+	cj := caseJSON{Kind: "session", Files: fh, Steps: steps, Shape: shape, Observed: o.Class + " " + o.Err, Readable: strings.Join(rd, " ; ")}
+	if o.Class == "panic" {
+		r.fail("c16-panic", "the parser panicked: "+o.Err, cj)
+		return o
+	}
+	r.res.InputDistribution["session_"+shape+"_"+o.Class]++
+	r.add(fmt.Sprintf("CSession %s %s %s", filesTerm(files), stepsTerm(steps), obsTerm(o)), cj, "S"+filesTerm(files)+stepsTerm(steps),
+		(o.Class == "ok" && len(o.Dumps) > 0) || o.Class == "syntax")
+	return o
+}
+
 // addIntent: a text and the description it is meant to denote; the compiled dump must be what the
 // description compiles to (fails exactly on the listed findings, which carry their key)
 func (r *runner) addIntent(d Desc, text, finding string) {
@@ -1042,6 +1162,12 @@ func (r *runner) runDoc(doc json.RawMessage) {
 			v = *c.RVar
 		}
 		r.addDesc(*c.Desc, c.Mask, v, c.FindingKey)
+	case "session":
+		files := map[string]string{}
+		for n, h := range c.Files {
+			files[n] = unhx(h)
+		}
+		r.addSession(files, c.Steps, "replay")
 	case "intent":
 		if c.Desc != nil {
 			r.addIntent(*c.Desc, unhx(c.Text), c.FindingKey)
@@ -1337,6 +1463,8 @@ func (r *runner) generate(g *gen) {
 	// across Include files and across configurations of this process (the regex cache is process-wide);
 	// every key text is fresh (unique number) so that the first use in the process is the one tested ----
 	r.rxFold(g)
+	r.dirTrees(g)
+	r.updateTargets(g)
 
 	// ---- line-assembly corner cases ----
 	rule := func(id int) string { return fmt.Sprintf("SecRule ARGS \"@rx a\" \"id:%d,deny\"", id) }
@@ -1440,5 +1568,232 @@ func (r *runner) rxFold(g *gen) {
 		k = fresh()
 		run(nil, rule(1, b+":/"+k+"/")+"\n", k)
 		run(nil, rule(1, a+":/"+k+"/")+"\n", k)
+	}
+}
+
+// ---------------------------------------------------------------------------------------
+// include trees over several directories with same-named data files (ParserConfig.ConfigDir)
+// ---------------------------------------------------------------------------------------
+
+func pathJoin(dir, p string) string {
+	if dir == "" || dir == "." {
+		return p
+	}
+	return dir + "/" + p
+}
+
+type treeGen struct {
+	g      *gen
+	files  map[string]string
+	nextID int
+	nfile  int
+	flat   []string // the rules in order, data files named by their full path
+}
+
+var treeDirs = []string{"", "d1", "d2", "d1/sub", "etc/rules", "etc/rules/crs"}
+
+func (t *treeGen) rule(dir string) string {
+	t.nextID++
+	id := t.nextID
+	g := t.g
+	targets := g.pick([]string{"ARGS", "REQUEST_HEADERS:x|ARGS_GET", "REQUEST_URI", "ARGS_NAMES|!ARGS_NAMES:a"})
+	acts := fmt.Sprintf("id:%d,%s", id, g.pick([]string{"pass", "deny,status:403", "pass,t:lowercase", "phase:1,pass"}))
+	mk := func(op string) string { return fmt.Sprintf("SecRule %s \"%s\" \"%s\"", targets, op, acts) }
+	switch g.r.Intn(5) {
+	case 0:
+		t.flat = append(t.flat, mk("@rx a"))
+		return mk("@rx a")
+	case 1:
+		neg := g.pick([]string{"", "!"})
+		t.flat = append(t.flat, mk(neg+"@ipMatchFromFile "+pathJoin(dir, "ips.data")))
+		return mk(neg + "@ipMatchFromFile ips.data")
+	default:
+		op := g.pick([]string{"@pmFromFile", "@pmf", "!@pmFromFile"})
+		t.flat = append(t.flat, mk(op+" "+pathJoin(dir, "words.data")))
+		return mk(op + " words.data")
+	}
+}
+
+// body of a configuration file (or of the inline text) living in dir; depth bounds nesting
+func (t *treeGen) body(dir string, depth int) string {
+	g := t.g
+	var sb strings.Builder
+	n := 1 + g.r.Intn(3)
+	for i := 0; i < n; i++ {
+		if g.r.Intn(4) != 0 {
+			sb.WriteString(t.rule(dir) + "\n")
+		}
+		if depth > 0 && g.r.Intn(3) != 0 {
+			// a child in this directory or in a directory below it
+			var cands []string
+			for _, d := range treeDirs {
+				if d == dir || dir == "" || strings.HasPrefix(d, dir+"/") {
+					cands = append(cands, d)
+				}
+			}
+			cd := g.pick(cands)
+			t.nfile++
+			name := fmt.Sprintf("f%d.conf", t.nfile)
+			full := pathJoin(cd, name)
+			content := t.body(cd, depth-1)
+			t.files[full] = content
+			rel := full
+			if dir != "" {
+				rel = strings.TrimPrefix(full, dir+"/")
+			}
+			sb.WriteString(g.pick([]string{"Include ", "include ", "Include \""}) + rel)
+			if strings.HasSuffix(sb.String(), "Include \""+rel) {
+				sb.WriteString("\"")
+			}
+			sb.WriteString("\n")
+		}
+		// a rule AFTER the Include of this level
+		if g.r.Intn(3) != 0 {
+			sb.WriteString(t.rule(dir) + "\n")
+		}
+	}
+	return sb.String()
+}
+
+func (r *runner) dirTrees(g *gen) {
+	n := r.cfg.Pick(40, 600)
+	for i := 0; i < n; i++ {
+		t := &treeGen{g: g, files: map[string]string{}, nextID: 7000 + 20*i}
+		for k, d := range treeDirs {
+			t.files[pathJoin(d, "words.data")] = fmt.Sprintf("w%03dq\n", 10*i%900+k)
+			t.files[pathJoin(d, "ips.data")] = fmt.Sprintf("10.%d.%d.1\n", i%250, k)
+		}
+		var steps []Step
+		shape := "dirs"
+		switch g.r.Intn(4) {
+		case 0: // everything below one FromString
+			steps = []Step{{Text: hx(t.body("", 2))}}
+		case 1: // FromFile of a file in a directory, then FromString on the same parser
+			d := g.pick(treeDirs[1:])
+			t.files[pathJoin(d, "main.conf")] = t.body(d, 2)
+			steps = []Step{{File: pathJoin(d, "main.conf")}, {Text: hx(t.body("", 1))}}
+			shape = "dirs_file_string"
+		case 2: // FromString, FromFile, FromString
+			first := t.body("", 1)
+			d := g.pick(treeDirs)
+			t.files[pathJoin(d, "main.conf")] = t.body(d, 1)
+			steps = []Step{{Text: hx(first)}, {File: pathJoin(d, "main.conf")}, {Text: hx(t.body("", 0))}}
+			shape = "dirs_string_file_string"
+		default: // two files of different directories
+			d1, d2 := g.pick(treeDirs), g.pick(treeDirs)
+			t.files[pathJoin(d1, "main.conf")] = t.body(d1, 1)
+			t.files[pathJoin(d2, "other.conf")] = t.body(d2, 1)
+			steps = []Step{{File: pathJoin(d1, "main.conf")}, {File: pathJoin(d2, "other.conf")}}
+			shape = "dirs_two_files"
+		}
+		if len(t.flat) == 0 {
+			continue
+		}
+		o := r.addSession(t.files, steps, shape)
+		// the flat configuration: the same rules in one text, data files named by their full path
+		flat := strings.Join(t.flat, "\n") + "\n"
+		of := r.addText(t.files, flat, "dirs_flat", "")
+		r.oracle++
+		if o.Class != "ok" || of.Class != "ok" || obsKey(o) != obsKey(of) {
+			fh := map[string]string{}
+			for n, c := range t.files {
+				fh[n] = hx(c)
+			}
+			r.fail("c16-include-tree-differs", "a configuration split across files of several directories compiled to other rules / loaded other data files than the flat configuration: "+o.Class+" "+o.Err+" / "+of.Class+" "+of.Err,
+				caseJSON{Kind: "session", Files: fh, Steps: steps, Shape: shape})
+		}
+	}
+}
+
+// ---------------------------------------------------------------------------------------
+// SecRuleUpdateTargetById: id list / id range / one directive per id
+// ---------------------------------------------------------------------------------------
+
+func (r *runner) updateTargets(g *gen) {
+	n := r.cfg.Pick(40, 600)
+	posT := []string{"ARGS_GET", "ARGS_POST:foo", "REQUEST_COOKIES:Sess", "&REQUEST_COOKIES", "&ARGS:n", "TX:/^K-[0-9]+/", "ARGS_NAMES:/^Up/", "XML:/*", "REQUEST_BODY", "FILES_NAMES:'/a|b/'"}
+	negT := []string{"!ARGS:bar", "!REQUEST_HEADERS:/^X-Y/", "!ARGS:/^Bz/", "!REQUEST_HEADERS:User-Agent", "!ARGS_GET:q"}
+	for i := 0; i < n; i++ {
+		// the rules
+		var ids []int
+		for id := 10; id < 20; id++ {
+			if g.r.Intn(2) == 0 {
+				ids = append(ids, id)
+			}
+		}
+		if len(ids) < 2 {
+			ids = []int{11, 12, 14}
+		}
+		var base strings.Builder
+		for _, id := range ids {
+			base.WriteString(fmt.Sprintf("SecRule %s \"@rx a\" \"id:%d,pass\"\n", g.pick([]string{"ARGS", "ARGS|REQUEST_HEADERS", "REQUEST_HEADERS:Host|ARGS_GET|!ARGS_GET:z", "REQUEST_URI"}), id))
+		}
+		// the target list: positive targets and exclusions
+		var ts []string
+		for k := 1 + g.r.Intn(4); k > 0; k-- {
+			if g.r.Intn(3) == 0 {
+				ts = append(ts, g.pick(negT))
+			} else {
+				ts = append(ts, g.pick(posT))
+			}
+		}
+		tl := strings.Join(ts, "|")
+		if g.r.Intn(2) == 0 {
+			tl = "\"" + tl + "\""
+		}
+		kw := g.pick([]string{"SecRuleUpdateTargetById", "secruleupdatetargetbyid", "SecRuleUpdateTargetByID"})
+		// a contiguous run of the existing ids
+		a := g.r.Intn(len(ids) - 1)
+		b := a + 1 + g.r.Intn(len(ids)-a-1)
+		sel := ids[a : b+1]
+		lo, hi := sel[0], sel[len(sel)-1]
+		if a == 0 && g.r.Intn(2) == 0 {
+			lo = 5 // a bound that is not an id itself
+		}
+		if b == len(ids)-1 && g.r.Intn(2) == 0 {
+			hi = 25
+		}
+		var list []string
+		var per strings.Builder
+		for _, id := range sel {
+			list = append(list, fmt.Sprint(id))
+			per.WriteString(fmt.Sprintf("%s %d %s\n", kw, id, tl))
+		}
+		spell := []string{
+			fmt.Sprintf("%s %s %s\n", kw, strings.Join(list, " "), tl),
+			fmt.Sprintf("%s %d-%d %s\n", kw, lo, hi, tl),
+			per.String(),
+			fmt.Sprintf("%s %d-%d %s %s\n", kw, lo, sel[len(sel)-2], list[len(list)-1], tl),
+			fmt.Sprintf("%s %s\t%d-%d  %s\n", kw, list[0], sel[1], hi, tl),
+		}
+		if len(sel) == 2 && sel[0] == lo {
+			// the range "x-x" is the single-id form
+			spell[3] = fmt.Sprintf("%s %d-%d %d-%d %s\n", kw, sel[0], sel[0], sel[1], sel[1], tl)
+		}
+		var first observation
+		for k, sp := range spell {
+			o := r.addText(nil, base.String()+sp, "update", "")
+			if k == 0 {
+				first = o
+				continue
+			}
+			r.oracle++
+			if obsKey(o) != obsKey(first) {
+				r.fail("c16-update-target-spelling", "SecRuleUpdateTargetById written as id list / id range / one directive per id compiled to different target lists: "+o.Class+" "+o.Err,
+					caseJSON{Kind: "text", Text: hx(base.String() + sp), Readable: readable(base.String() + sp)})
+			}
+		}
+		// one deviating spelling per round, compared with the model only
+		odd := []string{
+			fmt.Sprintf("%s 99 %s\n", kw, tl), fmt.Sprintf("%s 99 %d %s\n", kw, ids[0], tl), fmt.Sprintf("%s %d-%d %s\n", kw, hi, lo, tl),
+			fmt.Sprintf("%s -%d %s\n", kw, lo, tl), fmt.Sprintf("%s x%d %s\n", kw, lo, tl), fmt.Sprintf("%s %d- %s\n", kw, lo, tl),
+			fmt.Sprintf("%s %d\n", kw, lo), fmt.Sprintf("%s 30-40 NOSUCHVAR\n", kw), fmt.Sprintf("%s %d-%d NOSUCHVAR\n", kw, lo, hi),
+			fmt.Sprintf("%s 99-99 %s\n", kw, tl), fmt.Sprintf("%s +%d %s\n", kw, ids[0], tl), fmt.Sprintf("%s %d-+%d %s\n", kw, lo, hi, tl),
+			fmt.Sprintf("%s %d--3 %s\n", kw, lo, tl), fmt.Sprintf("%s 0-9 %s\n", kw, tl), fmt.Sprintf("%s %d %s|REQUEST_URI:x\n", kw, ids[0], tl),
+			fmt.Sprintf("SecRule ARGS \"@rx a\"\n%s 0 %s\n", kw, tl), fmt.Sprintf("%s %d %s extra\n", kw, ids[0], tl),
+		}
+		r.addText(nil, base.String()+odd[i%len(odd)], "update_odd", "")
+		// the update inside an included file, the rules before it
+		r.addText(map[string]string{"u.conf": spell[1]}, base.String()+"Include u.conf\n", "update_include", "")
 	}
 }
